@@ -67,11 +67,15 @@ def default_html(text: str, source: str, line_number: int) -> list[nodes.Element
 
 
 def html_to_nodes(
-    text: str, line_number: int, renderer: DocutilsRenderer
+    text: str, line_number: int, renderer: DocutilsRenderer, inline: bool = False
 ) -> list[nodes.Element]:
-    """Convert HTML to docutils nodes."""
+    """Convert HTML to docutils nodes.
+
+    :param inline: the text is inline HTML (a single tag),
+        which can not be an admonition block
+    """
     try:
-        return _html_to_nodes(text, line_number, renderer)
+        return _html_to_nodes(text, line_number, renderer, inline)
     except RecursionError:
         # copying and rendering the parsed HTML recurse once per nesting level
         msg_node = renderer.create_warning(
@@ -85,13 +89,15 @@ def html_to_nodes(
 
 
 def _html_to_nodes(
-    text: str, line_number: int, renderer: DocutilsRenderer
+    text: str, line_number: int, renderer: DocutilsRenderer, inline: bool
 ) -> list[nodes.Element]:
     if renderer.md_config.gfm_only:
         text, _ = RE_FLOW.subn(lambda s: s.group(0).replace("<", "&lt;"), text)
 
     enable_html_img = "html_image" in renderer.md_config.enable_extensions
-    enable_html_admonition = "html_admonition" in renderer.md_config.enable_extensions
+    enable_html_admonition = (
+        not inline and "html_admonition" in renderer.md_config.enable_extensions
+    )
     if not (enable_html_img or enable_html_admonition):
         return default_html(text, renderer.document["source"], line_number)
 
